@@ -66,6 +66,8 @@ def plan_C20(ctx):
     ctx.assumptions = ["inputs are well-formed UTF-8 and ranges satisfy start <= finish, position >= 0 (header preconditions)",
                        "Overlaps/Contains(range)/SharesBorder are compared exactly only for proper ranges (start < finish)"]
     ctx.model_check("MC_C20.tla", "MC_C20.cfg")
+    # the arithmetic interval laws for ALL integer ranges, not only the window TLC enumerates (Apalache)
+    ctx.inductive("RangesInd.tla", "Init", "Init", "Next", "Laws")
     cfg = "Gen_C20_q.cfg" if ctx.quick else "Gen_C20_t.cfg"
     ctx.constants = {"A": "MaxLen=%d, |Alphabet|=9, ranges in [-1,5], lists <= 3" % (4 if ctx.quick else 5),
                      "B": "%d recorded calls" % (4000 if ctx.quick else 40000)}
